@@ -1241,6 +1241,19 @@ class Gen(object):
                 op['reg'] = self.cands().index(ir)
         if r.random() < 0.4:
             op['method'] = r.choice(['raw', 'repr'])
+        if r.random() < 0.2:
+            op['same_as'] = r.choice([f for f in REG_FIELDS if f != op['field']])
+        return op
+
+    def g_acc_copy(self):
+        r = self.rng
+        k, i = self.pick(self.is_real)
+        if k is None:
+            return self.g_new()
+        op = {'op': 'acc_copy', 'slot': k, 'field': r.choice(REG_FIELDS),
+              'how': r.choice(['deepcopy', 'copy.deepcopy', 'invert', 'flatten', 'fxp_like'])}
+        if r.random() < 0.3:
+            op['both'] = r.choice([f for f in REG_FIELDS if f != op['field']])
         return op
 
     def g_template(self):
@@ -1380,6 +1393,7 @@ class Gen(object):
             add(4, self.g_config_set, 'mutate_config')
             if p.p_register > 0:
                 add(int(10 * p.p_register) + 1, self.g_register_set, 'registers')
+                add(1, self.g_acc_copy, 'registers')
             if 'F5' in F:
                 add(3, self.g_template, 'templates')
                 add(1, self.g_cfg_template, 'templates')
